@@ -298,6 +298,42 @@ def run(repo, run, tier):
               "the typedef's typemap is registered under scope + name; its cxx_type must be that scoped name as well, "
               "otherwise wrappers at file scope name a type that is only declared inside the namespace/class", am_.loc(ct))
 
+    # every cv-qualifier token after `*` / `&` is recorded under its own name
+    pp = dm.func("Parser.pointer")
+    quals = [lp for lp in ast.walk(pp) if isinstance(lp, ast.While) and "TYPE_QUALIFIER" in dm.seg(lp.test)]
+    okq = len(quals) == 1 and pat.has(quals[0], "setattr(MV_N, self.token.value, True)") and \
+        not [a for a in ast.walk(quals[0]) if isinstance(a, ast.Assign) and isinstance(a.targets[0], ast.Attribute)
+             and a.targets[0].attr in ("const", "volatile")]
+    run.check(R1, "declast.Parser.pointer:qualifiers", okq,
+              "the qualifier that follows a pointer operator must be stored under the name of the token that was read "
+              "(setattr(node, token.value, True)); a fixed attribute records `volatile` as `const`", dm.loc(pp))
+    # instantiating `const T *x` with T=int keeps the qualifiers of the templated declaration
+    inst = dm.func("Declaration.instantiate")
+    over = [dm.seg(a) for a in ast.walk(inst) if isinstance(a, ast.Assign) and isinstance(a.targets[0], ast.Attribute)
+            and a.targets[0].attr in ("const", "volatile") and not isinstance(a.value, ast.BoolOp)]
+    run.check(R1, "declast.Declaration.instantiate:qualifiers", not over,
+              "instantiate() overwrites the cv-qualifiers of the templated declaration (%s): `const T &` instantiated "
+              "with a plain type loses its const" % over, dm.loc(inst))
+    # C++ name lookup: the class's own names hide those of enclosing scopes
+    am2 = repo.module("ast")
+    for cls_ in ("ClassNode", "NamespaceNode", "LibraryNode"):
+        try:
+            ul = am2.func(cls_ + ".unqualified_lookup")
+        except AnalysisError:
+            continue
+        calls = [c for c in ast.walk(ul) if isinstance(c, ast.Call) and (pyflow.call_name(c) or "").endswith(".parent.unqualified_lookup")]
+        if not calls:
+            continue
+        own = [x for x in ast.walk(ul) if isinstance(x, (ast.Subscript, ast.Call)) and "self.symbols" in am2.seg(x)
+               and not any(x is y for c in calls for y in ast.walk(c))]
+        first_own = min((x.lineno, x.col_offset) for x in own) if own else None
+        first_par = min((c.lineno, c.col_offset) for c in calls)
+        guarded = any("self.symbols" in am2.seg(t) for c in calls for t, pol in
+                      (pyflow.early_exit_guards(ul, c) + pyflow.dominating_tests(c, stop=ul)))
+        run.check(R1, "ast.%s.unqualified_lookup:inner-first" % cls_, bool(own) and (guarded or first_own < first_par),
+                  "unqualified lookup asks the enclosing scope before (or without) looking at the scope's own symbols: a "
+                  "nested name no longer hides a same-named outer one, as it does in C++", am2.loc(ul))
+
     # ---- R2 order
     common = ["const", "template_arguments", "declarator", "params", "func_const", "array"]
     o1 = [x for x in first_use_order(dm, dm.func("Declaration.gen_decl_work"), set(common)) if x in common]
